@@ -257,6 +257,77 @@ def gen_elements(repo):
     return '\n'.join(L) + '\n'
 
 
+def gen_element_masses(repo):
+    """`ISOTOPIC_ATOMIC_MASSES` / `AVERAGE_ATOMIC_MASSES` as literals, computed here with exact fractions by the same steps as
+    `Model/Chem.lean` (`isotopicMasses`, `averageMasses`: write order reversed).  NOT trusted: `Lemmas/ElemTables.lean` proves by
+    kernel evaluation that the Lean recomputation from `Generated/Elements.lean` equals these literals; they only exist so that
+    table obligations over thousands of vocabulary entries need not re-evaluate the derivation for every look-up."""
+    rows = read_chem_txt(os.path.join(repo, 'src', 'peptacular', 'data', 'chem.txt'))
+    groups = {}
+    for z, sym, a, m, ab in rows:
+        groups.setdefault(z, []).append((sym, a, Fraction(Decimal(m)), Fraction(Decimal(ab))))
+    iso, avg = [], []
+    for z, g in groups.items():
+        best = g[0]
+        for x in g[1:]:
+            if best[3] < x[3]:
+                best = x
+        iso.append((key(best[0]), best[2]))
+        for sym, a, m, ab in g:
+            iso.append((key(str(a) + sym), m))
+        tot = sum((m * ab for _, _, m, ab in g), Fraction(0))
+        avg.append((key(best[0]), best[2] if tot == 0 else tot))
+
+    def last(k):
+        for kk, v in reversed(iso):
+            if kk == k:
+                return [v]
+        return []
+
+    t, d = last(key('3T')), last(key('2D'))
+    iso = iso + [(key('T'), v) for v in t] + [(key('D'), v) for v in d] + [(key('3H'), v) for v in t] + [(key('2H'), v) for v in d]
+    iso.reverse()
+    avg.reverse()
+
+    def lit(fr):
+        return f'(({fr.numerator} : Rat) / {fr.denominator})' if fr.denominator != 1 else f'({fr.numerator} : Rat)'
+
+    front = []
+    isod, avgd = {}, {}
+    for k, v in iso:
+        isod.setdefault(k, v)
+    for k, v in avg:
+        avgd.setdefault(k, v)
+    for sym in FRONT_KEYS:
+        k = key(sym)
+        if k in isod:
+            front.append((k, isod[k], avgd.get(k)))
+    L = ['/-! GENERATED by harness/translate_tables.py from src/peptacular/data/chem.txt - do not edit.',
+         'Literal copies of the two derived element-mass tables; `PeptVerif/Lemmas/ElemTables.lean` proves them equal to the',
+         'recomputation in `Model/Chem.lean` (kernel evaluation), so nothing here is trusted. -/', 'namespace Gen', '']
+    for name, tbl in (('isotopicLit', iso), ('averageLit', avg)):
+        n = 0
+        for i in range(0, len(tbl), 50):
+            L.append(f'def {name}{n} : List (Nat × Rat) := [')
+            L.append(',\n'.join(f'  ({k} /-{unkey(k)}-/, {lit(v)})' for k, v in tbl[i:i + 50]))
+            L.append(']')
+            n += 1
+        L.append(f'def {name} : List (Nat × Rat) := ' + ' ++ '.join(f'{name}{i}' for i in range(n)))
+        L.append('')
+    L.append('/-- the keys that vocabulary compositions use most, first: (key, `ISOTOPIC_ATOMIC_MASSES[key]`, `AVERAGE_ATOMIC_MASSES.get(key)`) -/')
+    L.append('def frontLit : List (Nat × Rat × Option Rat) := [')
+    L.append(',\n'.join(f'  ({k} /-{unkey(k)}-/, {lit(m)}, {"none" if a is None else "some " + lit(a)})' for k, m, a in front))
+    L.append(']')
+    L.append('')
+    L.append('end Gen')
+    return '\n'.join(L) + '\n'
+
+
+FRONT_KEYS = ['H', 'C', 'N', 'O', 'S', 'P', '2H', '13C', '15N', '18O', 'D', 'F', 'Cl', 'Br', 'I', 'Na', 'K', 'Se', 'Fe', 'Zn', 'Cu',
+              'Mo', 'Hg', 'B', 'Si', 'Li', 'Mg', 'Ca', 'Mn', 'Co', 'Ni', 'As', 'Ag', 'Au', 'Pt', 'Al', 'Cd', 'Pd', 'Cr', 'W', 'V',
+              '17O', '34S', '33S', 'T', '3H']
+
+
 def _write_if_changed(path, text):
     if os.path.exists(path) and open(path).read() == text:
         return False
@@ -276,7 +347,7 @@ def translate(chk=None, repo=None):
     os.makedirs(os.path.join(core.LEAN, '.lake'), exist_ok=True)
     with open(os.path.join(core.LEAN, '.lake', 'verif.lock'), 'w') as lk:
         fcntl.flock(lk, fcntl.LOCK_EX)
-        for mod, fn in (('Constants', gen_constants), ('Elements', gen_elements)):
+        for mod, fn in (('Constants', gen_constants), ('Elements', gen_elements), ('ElementMasses', gen_element_masses)):
             if _write_if_changed(os.path.join(GEN_DIR, mod + '.lean'), fn(repo)):
                 changed.append('PeptVerif.Generated.' + mod)
     if chk is not None:
